@@ -178,13 +178,15 @@ def _node_of(cfg, ast):
     return None
 
 
-def array_flags(ctx, P, rule="ARRAY-FLAGS", floor=60):
+def array_flags(ctx, P, rule="ARRAY-FLAGS", floor=60, only=None):
     """Every numpy conversion whose buffer is read as a dense C array requests a C-contiguous, aligned array."""
     ctx.rule(rule, "every PyArray_FROMANY / PyArray_FromAny / PyArray_FROM_OTF conversion in the module (and the lwt header) "
                    "passes NPY_ARRAY_IN_ARRAY (C-contiguous + aligned): PyArray_DATA of the result is read as a dense buffer")
     tu = P.tus["module"]
     n = 0
     for fn in tu.funcs.values():
+        if only is not None and not only(fn.name):
+            continue
         k = 0
         for c in calls(fn.body):
             nm = callname(c)
@@ -198,7 +200,7 @@ def array_flags(ctx, P, rule="ARRAY-FLAGS", floor=60):
             ctx.ob(rule, "%s@%d" % (fn.name, k), ok, tu.loc(c), "%s(..., %s)" % (nm, ftxt))
             k += 1
             n += 1
-    ctx.floor(rule, floor)
+    ctx.floor(rule, floor if only is None else 1)
     return n
 
 
@@ -235,13 +237,15 @@ def setvbuf_before_load(ctx, P, rule="STREAM-UNBUFFERED"):
         ctx.ob(rule, fname, ok, tu.loc(lf[0]), why)
 
 
-def bytes_length(ctx, P, rule="BYTES-LENGTH"):
+def bytes_length(ctx, P, rule="BYTES-LENGTH", only=None):
     ctx.rule(rule, "the module never derives the length of Python-supplied bytes with strlen()/PyBytes_AsString/PyUnicode_AsUTF8 "
                    "(binary metadata may contain NUL); lengths come from PyBytes_AsStringAndSize / s# / PyUnicode_AsUTF8AndSize")
     tu = P.tus["module"]
     bad = 0
     tot = 0
     for fn in tu.funcs.values():
+        if only is not None and not only(fn.name):
+            continue
         for c in calls(fn.body):
             nm = callname(c)
             if nm in ("PyBytes_AsStringAndSize", "PyUnicode_AsUTF8AndSize"):
@@ -256,6 +260,8 @@ def bytes_length(ctx, P, rule="BYTES-LENGTH"):
                        "%s used on Python-supplied data: a length computed this way truncates at the first NUL byte" % nm)
     # 's'/'z'/'y' formats without '#' hand out NUL-terminated pointers with no length
     for fn in tu.funcs.values():
+        if only is not None and not only(fn.name):
+            continue
         for pc in modinfo.parse_calls(tu, fn):
             for u in pc.units:
                 if u in ("y", "z", "s") and fn.name not in CSTR_OK:
@@ -270,12 +276,14 @@ STRLEN_OK = {"write_ragged_col": "assert() on an internal key name (lwt header),
 CSTR_OK = {}
 
 
-def parsed_used(ctx, P, rule="PARSED-USED"):
+def parsed_used(ctx, P, rule="PARSED-USED", only=None):
     ctx.rule(rule, "every variable filled by PyArg_Parse* in a module function is read afterwards (a parsed-but-unused argument "
                    "is an option the C layer silently ignores)")
     tu = P.tus["module"]
     n = 0
     for fn in tu.funcs.values():
+        if only is not None and not only(fn.name):
+            continue
         pcs = modinfo.parse_calls(tu, fn)
         if not pcs:
             continue
@@ -357,7 +365,7 @@ MODULE_INCLUSIVE = {
 }
 
 
-def module_guards(ctx, P, rule="MODULE-GUARD", freeze=False):
+def module_guards(ctx, P, rule="MODULE-GUARD", freeze=False, only=None):
     ctx.rule(rule, "every range guard in the module that raises ValueError/IndexError and whose upper bound denotes a row / node / "
                    "sample count accepts exactly [0, count) (count itself only at the frozen position / virtual-root guards), has "
                    "a lower bound unless the subject is unsigned, and every guard confirmed by reading is still present")
@@ -365,6 +373,8 @@ def module_guards(ctx, P, rule="MODULE-GUARD", freeze=False):
     tu = P.tus["module"]
     seen = {}
     for fn in tu.funcs.values():
+        if only is not None and not only(fn.name):
+            continue
         al = None
         for n in walk(fn.body):
             if n.k != "IfStmt" or len(n.kids) < 2 or n.kids[1] is None:
@@ -404,6 +414,8 @@ def module_guards(ctx, P, rule="MODULE-GUARD", freeze=False):
     with open(MODULE_GUARD_TABLE) as fh:
         frozen = _json.load(fh)["guards"]
     for fname, cnt in sorted(frozen.items()):
+        if only is not None and not only(fname):
+            continue
         have = seen.get(fname, 0)
         ctx.ob(rule + "-PRESENT", fname, have >= cnt, "python/_tskitmodule.c (%s)" % fname, "%d count-bounded guard(s) (confirmed %d)" % (have, cnt))
     ctx.rule(rule + "-PRESENT", "every module range guard confirmed by reading (tables/module_guards.json) is still present")
@@ -524,7 +536,7 @@ ARG_CTYPE = {"i": ("int", "unsigned int", "tsk_id_t", "int32_t"), "I": ("unsigne
 BUILD_SIGN_OK = {("Tree_get_options", "i"): "tree option bits are all below 2^31", ("Tree_copy", "i"): "tree option bits are all below 2^31"}
 
 
-def format_types(ctx, P, rule="FORMAT-TYPES"):
+def format_types(ctx, P, rule="FORMAT-TYPES", only=None):
     ctx.rule(rule, "Python<->C conversions keep width and signedness: every PyArg_Parse* format unit matches the C type of its "
                    "destination (`i`->int*, `I`->unsigned 32-bit, `n`->Py_ssize_t*, `d`->double*, O!/O& with object / converter), and "
                    "every Py_BuildValue unit matches the signedness of the value's own type before any cast (tsk_flags_t and sizes "
@@ -532,6 +544,8 @@ def format_types(ctx, P, rule="FORMAT-TYPES"):
     tu = P.tus["module"]
     n = 0
     for fn in tu.funcs.values():
+        if only is not None and not only(fn.name):
+            continue
         for pc in modinfo.parse_calls(tu, fn):
             slots, used = modinfo.dest_slots(pc)
             for i, (u, ds) in enumerate(slots):
